@@ -10,6 +10,9 @@ theories/Conc/PoolProofs.vos theories/Conc/PoolProofs.vok theories/Conc/PoolProo
 theories/Conc/RefCnt.vo theories/Conc/RefCnt.glob theories/Conc/RefCnt.v.beautified theories/Conc/RefCnt.required_vo: theories/Conc/RefCnt.v theories/Conc/Pool.vo
 theories/Conc/RefCnt.vio: theories/Conc/RefCnt.v theories/Conc/Pool.vio
 theories/Conc/RefCnt.vos theories/Conc/RefCnt.vok theories/Conc/RefCnt.required_vos: theories/Conc/RefCnt.v theories/Conc/Pool.vos
+theories/Conc/RefInv.vo theories/Conc/RefInv.glob theories/Conc/RefInv.v.beautified theories/Conc/RefInv.required_vo: theories/Conc/RefInv.v theories/Conc/Pool.vo theories/Conc/PoolProofs.vo theories/Conc/RefCnt.vo
+theories/Conc/RefInv.vio: theories/Conc/RefInv.v theories/Conc/Pool.vio theories/Conc/PoolProofs.vio theories/Conc/RefCnt.vio
+theories/Conc/RefInv.vos theories/Conc/RefInv.vok theories/Conc/RefInv.required_vos: theories/Conc/RefInv.v theories/Conc/Pool.vos theories/Conc/PoolProofs.vos theories/Conc/RefCnt.vos
 theories/Conc/RefProofs.vo theories/Conc/RefProofs.glob theories/Conc/RefProofs.v.beautified theories/Conc/RefProofs.required_vo: theories/Conc/RefProofs.v theories/Conc/Pool.vo theories/Conc/RefCnt.vo
 theories/Conc/RefProofs.vio: theories/Conc/RefProofs.v theories/Conc/Pool.vio theories/Conc/RefCnt.vio
 theories/Conc/RefProofs.vos theories/Conc/RefProofs.vok theories/Conc/RefProofs.required_vos: theories/Conc/RefProofs.v theories/Conc/Pool.vos theories/Conc/RefCnt.vos
@@ -25,9 +28,15 @@ theories/Conc/RwMutexProofs.vos theories/Conc/RwMutexProofs.vok theories/Conc/Rw
 theories/Conc/TPool.vo theories/Conc/TPool.glob theories/Conc/TPool.v.beautified theories/Conc/TPool.required_vo: theories/Conc/TPool.v 
 theories/Conc/TPool.vio: theories/Conc/TPool.v 
 theories/Conc/TPool.vos theories/Conc/TPool.vok theories/Conc/TPool.required_vos: theories/Conc/TPool.v 
+theories/Conc/TPoolInv.vo theories/Conc/TPoolInv.glob theories/Conc/TPoolInv.v.beautified theories/Conc/TPoolInv.required_vo: theories/Conc/TPoolInv.v theories/Conc/TPool.vo theories/Conc/TPoolLemmas.vo
+theories/Conc/TPoolInv.vio: theories/Conc/TPoolInv.v theories/Conc/TPool.vio theories/Conc/TPoolLemmas.vio
+theories/Conc/TPoolInv.vos theories/Conc/TPoolInv.vok theories/Conc/TPoolInv.required_vos: theories/Conc/TPoolInv.v theories/Conc/TPool.vos theories/Conc/TPoolLemmas.vos
 theories/Conc/TPoolLemmas.vo theories/Conc/TPoolLemmas.glob theories/Conc/TPoolLemmas.v.beautified theories/Conc/TPoolLemmas.required_vo: theories/Conc/TPoolLemmas.v theories/Conc/TPool.vo
 theories/Conc/TPoolLemmas.vio: theories/Conc/TPoolLemmas.v theories/Conc/TPool.vio
 theories/Conc/TPoolLemmas.vos theories/Conc/TPoolLemmas.vok theories/Conc/TPoolLemmas.required_vos: theories/Conc/TPoolLemmas.v theories/Conc/TPool.vos
+theories/Conc/TPoolStep.vo theories/Conc/TPoolStep.glob theories/Conc/TPoolStep.v.beautified theories/Conc/TPoolStep.required_vo: theories/Conc/TPoolStep.v theories/Conc/TPool.vo theories/Conc/TPoolLemmas.vo theories/Conc/TPoolInv.vo
+theories/Conc/TPoolStep.vio: theories/Conc/TPoolStep.v theories/Conc/TPool.vio theories/Conc/TPoolLemmas.vio theories/Conc/TPoolInv.vio
+theories/Conc/TPoolStep.vos theories/Conc/TPoolStep.vok theories/Conc/TPoolStep.required_vos: theories/Conc/TPoolStep.v theories/Conc/TPool.vos theories/Conc/TPoolLemmas.vos theories/Conc/TPoolInv.vos
 theories/Conc/ThreadQ.vo theories/Conc/ThreadQ.glob theories/Conc/ThreadQ.v.beautified theories/Conc/ThreadQ.required_vo: theories/Conc/ThreadQ.v 
 theories/Conc/ThreadQ.vio: theories/Conc/ThreadQ.v 
 theories/Conc/ThreadQ.vos theories/Conc/ThreadQ.vok theories/Conc/ThreadQ.required_vos: theories/Conc/ThreadQ.v 
@@ -73,18 +82,33 @@ theories/Cont/QueueOps3.vos theories/Cont/QueueOps3.vok theories/Cont/QueueOps3.
 theories/Cont/QueueProofs.vo theories/Cont/QueueProofs.glob theories/Cont/QueueProofs.v.beautified theories/Cont/QueueProofs.required_vo: theories/Cont/QueueProofs.v theories/Gen/Consts.vo theories/Cont/QueueModel.vo theories/Cont/QueueLemmas.vo theories/Cont/QueueInv.vo theories/Cont/QueueOps1.vo theories/Cont/QueueEnsure.vo theories/Cont/QueueOps2.vo theories/Cont/QueueOps3.vo
 theories/Cont/QueueProofs.vio: theories/Cont/QueueProofs.v theories/Gen/Consts.vio theories/Cont/QueueModel.vio theories/Cont/QueueLemmas.vio theories/Cont/QueueInv.vio theories/Cont/QueueOps1.vio theories/Cont/QueueEnsure.vio theories/Cont/QueueOps2.vio theories/Cont/QueueOps3.vio
 theories/Cont/QueueProofs.vos theories/Cont/QueueProofs.vok theories/Cont/QueueProofs.required_vos: theories/Cont/QueueProofs.v theories/Gen/Consts.vos theories/Cont/QueueModel.vos theories/Cont/QueueLemmas.vos theories/Cont/QueueInv.vos theories/Cont/QueueOps1.vos theories/Cont/QueueEnsure.vos theories/Cont/QueueOps2.vos theories/Cont/QueueOps3.vos
+theories/Cont/StrCore.vo theories/Cont/StrCore.glob theories/Cont/StrCore.v.beautified theories/Cont/StrCore.required_vo: theories/Cont/StrCore.v theories/Cont/StrL0.vo theories/Cont/StrModel.vo theories/Cont/StrLemmas.vo theories/Cont/StrGrow.vo
+theories/Cont/StrCore.vio: theories/Cont/StrCore.v theories/Cont/StrL0.vio theories/Cont/StrModel.vio theories/Cont/StrLemmas.vio theories/Cont/StrGrow.vio
+theories/Cont/StrCore.vos theories/Cont/StrCore.vok theories/Cont/StrCore.required_vos: theories/Cont/StrCore.v theories/Cont/StrL0.vos theories/Cont/StrModel.vos theories/Cont/StrLemmas.vos theories/Cont/StrGrow.vos
+theories/Cont/StrGrow.vo theories/Cont/StrGrow.glob theories/Cont/StrGrow.v.beautified theories/Cont/StrGrow.required_vo: theories/Cont/StrGrow.v theories/Cont/StrL0.vo theories/Cont/StrModel.vo
+theories/Cont/StrGrow.vio: theories/Cont/StrGrow.v theories/Cont/StrL0.vio theories/Cont/StrModel.vio
+theories/Cont/StrGrow.vos theories/Cont/StrGrow.vok theories/Cont/StrGrow.required_vos: theories/Cont/StrGrow.v theories/Cont/StrL0.vos theories/Cont/StrModel.vos
 theories/Cont/StrL0.vo theories/Cont/StrL0.glob theories/Cont/StrL0.v.beautified theories/Cont/StrL0.required_vo: theories/Cont/StrL0.v 
 theories/Cont/StrL0.vio: theories/Cont/StrL0.v 
 theories/Cont/StrL0.vos theories/Cont/StrL0.vok theories/Cont/StrL0.required_vos: theories/Cont/StrL0.v 
+theories/Cont/StrLemmas.vo theories/Cont/StrLemmas.glob theories/Cont/StrLemmas.v.beautified theories/Cont/StrLemmas.required_vo: theories/Cont/StrLemmas.v theories/Cont/StrL0.vo
+theories/Cont/StrLemmas.vio: theories/Cont/StrLemmas.v theories/Cont/StrL0.vio
+theories/Cont/StrLemmas.vos theories/Cont/StrLemmas.vok theories/Cont/StrLemmas.required_vos: theories/Cont/StrLemmas.v theories/Cont/StrL0.vos
 theories/Cont/StrModel.vo theories/Cont/StrModel.glob theories/Cont/StrModel.v.beautified theories/Cont/StrModel.required_vo: theories/Cont/StrModel.v theories/Cont/StrL0.vo
 theories/Cont/StrModel.vio: theories/Cont/StrModel.v theories/Cont/StrL0.vio
 theories/Cont/StrModel.vos theories/Cont/StrModel.vok theories/Cont/StrModel.required_vos: theories/Cont/StrModel.v theories/Cont/StrL0.vos
 theories/Cont/StrProofs.vo theories/Cont/StrProofs.glob theories/Cont/StrProofs.v.beautified theories/Cont/StrProofs.required_vo: theories/Cont/StrProofs.v theories/Gen/Consts.vo theories/Cont/StrL0.vo theories/Cont/StrModel.vo
 theories/Cont/StrProofs.vio: theories/Cont/StrProofs.v theories/Gen/Consts.vio theories/Cont/StrL0.vio theories/Cont/StrModel.vio
 theories/Cont/StrProofs.vos theories/Cont/StrProofs.vok theories/Cont/StrProofs.required_vos: theories/Cont/StrProofs.v theories/Gen/Consts.vos theories/Cont/StrL0.vos theories/Cont/StrModel.vos
+theories/Flt/FltArchive.vo theories/Flt/FltArchive.glob theories/Flt/FltArchive.v.beautified theories/Flt/FltArchive.required_vo: theories/Flt/FltArchive.v theories/Gen/Consts.vo theories/Msg/MsgDefs.vo theories/Msg/MsgModel.vo theories/Msg/MsgApi.vo theories/Flt/FltModel.vo
+theories/Flt/FltArchive.vio: theories/Flt/FltArchive.v theories/Gen/Consts.vio theories/Msg/MsgDefs.vio theories/Msg/MsgModel.vio theories/Msg/MsgApi.vio theories/Flt/FltModel.vio
+theories/Flt/FltArchive.vos theories/Flt/FltArchive.vok theories/Flt/FltArchive.required_vos: theories/Flt/FltArchive.v theories/Gen/Consts.vos theories/Msg/MsgDefs.vos theories/Msg/MsgModel.vos theories/Msg/MsgApi.vos theories/Flt/FltModel.vos
 theories/Flt/FltModel.vo theories/Flt/FltModel.glob theories/Flt/FltModel.v.beautified theories/Flt/FltModel.required_vo: theories/Flt/FltModel.v theories/Gen/Consts.vo theories/Msg/MsgDefs.vo theories/Msg/MsgModel.vo
 theories/Flt/FltModel.vio: theories/Flt/FltModel.v theories/Gen/Consts.vio theories/Msg/MsgDefs.vio theories/Msg/MsgModel.vio
 theories/Flt/FltModel.vos theories/Flt/FltModel.vok theories/Flt/FltModel.required_vos: theories/Flt/FltModel.v theories/Gen/Consts.vos theories/Msg/MsgDefs.vos theories/Msg/MsgModel.vos
+theories/Flt/FltProofs.vo theories/Flt/FltProofs.glob theories/Flt/FltProofs.v.beautified theories/Flt/FltProofs.required_vo: theories/Flt/FltProofs.v theories/Gen/Consts.vo theories/Msg/MsgDefs.vo theories/Msg/MsgModel.vo theories/Flt/FltModel.vo
+theories/Flt/FltProofs.vio: theories/Flt/FltProofs.v theories/Gen/Consts.vio theories/Msg/MsgDefs.vio theories/Msg/MsgModel.vio theories/Flt/FltModel.vio
+theories/Flt/FltProofs.vos theories/Flt/FltProofs.vok theories/Flt/FltProofs.required_vos: theories/Flt/FltProofs.v theories/Gen/Consts.vos theories/Msg/MsgDefs.vos theories/Msg/MsgModel.vos theories/Flt/FltModel.vos
 theories/Gen/Consts.vo theories/Gen/Consts.glob theories/Gen/Consts.v.beautified theories/Gen/Consts.required_vo: theories/Gen/Consts.v 
 theories/Gen/Consts.vio: theories/Gen/Consts.v 
 theories/Gen/Consts.vos theories/Gen/Consts.vok theories/Gen/Consts.required_vos: theories/Gen/Consts.v 
@@ -103,6 +127,9 @@ theories/Gw/GwLemmas.vos theories/Gw/GwLemmas.vok theories/Gw/GwLemmas.required_
 theories/Gw/MiniTunnel.vo theories/Gw/MiniTunnel.glob theories/Gw/MiniTunnel.v.beautified theories/Gw/MiniTunnel.required_vo: theories/Gw/MiniTunnel.v theories/Common/LE.vo theories/Gen/Consts.vo theories/Gw/Tunnel.vo
 theories/Gw/MiniTunnel.vio: theories/Gw/MiniTunnel.v theories/Common/LE.vio theories/Gen/Consts.vio theories/Gw/Tunnel.vio
 theories/Gw/MiniTunnel.vos theories/Gw/MiniTunnel.vok theories/Gw/MiniTunnel.required_vos: theories/Gw/MiniTunnel.v theories/Common/LE.vos theories/Gen/Consts.vos theories/Gw/Tunnel.vos
+theories/Gw/MiniTunnelProofs.vo theories/Gw/MiniTunnelProofs.glob theories/Gw/MiniTunnelProofs.v.beautified theories/Gw/MiniTunnelProofs.required_vo: theories/Gw/MiniTunnelProofs.v theories/Common/LE.vo theories/Gen/Consts.vo theories/Gw/Tunnel.vo theories/Gw/TunnelProofs.vo theories/Gw/MiniTunnel.vo
+theories/Gw/MiniTunnelProofs.vio: theories/Gw/MiniTunnelProofs.v theories/Common/LE.vio theories/Gen/Consts.vio theories/Gw/Tunnel.vio theories/Gw/TunnelProofs.vio theories/Gw/MiniTunnel.vio
+theories/Gw/MiniTunnelProofs.vos theories/Gw/MiniTunnelProofs.vok theories/Gw/MiniTunnelProofs.required_vos: theories/Gw/MiniTunnelProofs.v theories/Common/LE.vos theories/Gen/Consts.vos theories/Gw/Tunnel.vos theories/Gw/TunnelProofs.vos theories/Gw/MiniTunnel.vos
 theories/Gw/RawModel.vo theories/Gw/RawModel.glob theories/Gw/RawModel.v.beautified theories/Gw/RawModel.required_vo: theories/Gw/RawModel.v theories/Gen/Consts.vo theories/Gw/GwBase.vo
 theories/Gw/RawModel.vio: theories/Gw/RawModel.v theories/Gen/Consts.vio theories/Gw/GwBase.vio
 theories/Gw/RawModel.vos theories/Gw/RawModel.vok theories/Gw/RawModel.required_vos: theories/Gw/RawModel.v theories/Gen/Consts.vos theories/Gw/GwBase.vos
@@ -112,9 +139,15 @@ theories/Gw/RawProofs.vos theories/Gw/RawProofs.vok theories/Gw/RawProofs.requir
 theories/Gw/SlipModel.vo theories/Gw/SlipModel.glob theories/Gw/SlipModel.v.beautified theories/Gw/SlipModel.required_vo: theories/Gw/SlipModel.v theories/Gen/Consts.vo theories/Gw/GwBase.vo theories/Gw/RawModel.vo
 theories/Gw/SlipModel.vio: theories/Gw/SlipModel.v theories/Gen/Consts.vio theories/Gw/GwBase.vio theories/Gw/RawModel.vio
 theories/Gw/SlipModel.vos theories/Gw/SlipModel.vok theories/Gw/SlipModel.required_vos: theories/Gw/SlipModel.v theories/Gen/Consts.vos theories/Gw/GwBase.vos theories/Gw/RawModel.vos
+theories/Gw/SlipProofs.vo theories/Gw/SlipProofs.glob theories/Gw/SlipProofs.v.beautified theories/Gw/SlipProofs.required_vo: theories/Gw/SlipProofs.v theories/Gen/Consts.vo theories/Gw/GwBase.vo theories/Gw/GwLemmas.vo theories/Gw/RawModel.vo theories/Gw/SlipModel.vo theories/Gw/RawProofs.vo theories/Gw/TransportProofs.vo
+theories/Gw/SlipProofs.vio: theories/Gw/SlipProofs.v theories/Gen/Consts.vio theories/Gw/GwBase.vio theories/Gw/GwLemmas.vio theories/Gw/RawModel.vio theories/Gw/SlipModel.vio theories/Gw/RawProofs.vio theories/Gw/TransportProofs.vio
+theories/Gw/SlipProofs.vos theories/Gw/SlipProofs.vok theories/Gw/SlipProofs.required_vos: theories/Gw/SlipProofs.v theories/Gen/Consts.vos theories/Gw/GwBase.vos theories/Gw/GwLemmas.vos theories/Gw/RawModel.vos theories/Gw/SlipModel.vos theories/Gw/RawProofs.vos theories/Gw/TransportProofs.vos
 theories/Gw/TextModel.vo theories/Gw/TextModel.glob theories/Gw/TextModel.v.beautified theories/Gw/TextModel.required_vo: theories/Gw/TextModel.v theories/Gen/Consts.vo theories/Gw/GwBase.vo
 theories/Gw/TextModel.vio: theories/Gw/TextModel.v theories/Gen/Consts.vio theories/Gw/GwBase.vio
 theories/Gw/TextModel.vos theories/Gw/TextModel.vok theories/Gw/TextModel.required_vos: theories/Gw/TextModel.v theories/Gen/Consts.vos theories/Gw/GwBase.vos
+theories/Gw/TextProofs.vo theories/Gw/TextProofs.glob theories/Gw/TextProofs.v.beautified theories/Gw/TextProofs.required_vo: theories/Gw/TextProofs.v theories/Gen/Consts.vo theories/Gw/GwBase.vo theories/Gw/GwLemmas.vo theories/Gw/TextModel.vo theories/Gw/TransportProofs.vo
+theories/Gw/TextProofs.vio: theories/Gw/TextProofs.v theories/Gen/Consts.vio theories/Gw/GwBase.vio theories/Gw/GwLemmas.vio theories/Gw/TextModel.vio theories/Gw/TransportProofs.vio
+theories/Gw/TextProofs.vos theories/Gw/TextProofs.vok theories/Gw/TextProofs.required_vos: theories/Gw/TextProofs.v theories/Gen/Consts.vos theories/Gw/GwBase.vos theories/Gw/GwLemmas.vos theories/Gw/TextModel.vos theories/Gw/TransportProofs.vos
 theories/Gw/TransportProofs.vo theories/Gw/TransportProofs.glob theories/Gw/TransportProofs.v.beautified theories/Gw/TransportProofs.required_vo: theories/Gw/TransportProofs.v theories/Gw/GwBase.vo
 theories/Gw/TransportProofs.vio: theories/Gw/TransportProofs.v theories/Gw/GwBase.vio
 theories/Gw/TransportProofs.vos theories/Gw/TransportProofs.vok theories/Gw/TransportProofs.required_vos: theories/Gw/TransportProofs.v theories/Gw/GwBase.vos
@@ -124,6 +157,9 @@ theories/Gw/Tunnel.vos theories/Gw/Tunnel.vok theories/Gw/Tunnel.required_vos: t
 theories/Gw/TunnelComplete.vo theories/Gw/TunnelComplete.glob theories/Gw/TunnelComplete.v.beautified theories/Gw/TunnelComplete.required_vo: theories/Gw/TunnelComplete.v theories/Common/LE.vo theories/Gen/Consts.vo theories/Gw/Tunnel.vo theories/Gw/TunnelProofs.vo theories/Gw/TunnelSound.vo theories/Gw/TunnelSender.vo
 theories/Gw/TunnelComplete.vio: theories/Gw/TunnelComplete.v theories/Common/LE.vio theories/Gen/Consts.vio theories/Gw/Tunnel.vio theories/Gw/TunnelProofs.vio theories/Gw/TunnelSound.vio theories/Gw/TunnelSender.vio
 theories/Gw/TunnelComplete.vos theories/Gw/TunnelComplete.vok theories/Gw/TunnelComplete.required_vos: theories/Gw/TunnelComplete.v theories/Common/LE.vos theories/Gen/Consts.vos theories/Gw/Tunnel.vos theories/Gw/TunnelProofs.vos theories/Gw/TunnelSound.vos theories/Gw/TunnelSender.vos
+theories/Gw/TunnelDrain.vo theories/Gw/TunnelDrain.glob theories/Gw/TunnelDrain.v.beautified theories/Gw/TunnelDrain.required_vo: theories/Gw/TunnelDrain.v theories/Common/LE.vo theories/Gen/Consts.vo theories/Gw/Tunnel.vo theories/Gw/TunnelProofs.vo theories/Gw/TunnelSound.vo theories/Gw/TunnelSender.vo
+theories/Gw/TunnelDrain.vio: theories/Gw/TunnelDrain.v theories/Common/LE.vio theories/Gen/Consts.vio theories/Gw/Tunnel.vio theories/Gw/TunnelProofs.vio theories/Gw/TunnelSound.vio theories/Gw/TunnelSender.vio
+theories/Gw/TunnelDrain.vos theories/Gw/TunnelDrain.vok theories/Gw/TunnelDrain.required_vos: theories/Gw/TunnelDrain.v theories/Common/LE.vos theories/Gen/Consts.vos theories/Gw/Tunnel.vos theories/Gw/TunnelProofs.vos theories/Gw/TunnelSound.vos theories/Gw/TunnelSender.vos
 theories/Gw/TunnelProofs.vo theories/Gw/TunnelProofs.glob theories/Gw/TunnelProofs.v.beautified theories/Gw/TunnelProofs.required_vo: theories/Gw/TunnelProofs.v theories/Common/LE.vo theories/Gen/Consts.vo theories/Gw/Tunnel.vo
 theories/Gw/TunnelProofs.vio: theories/Gw/TunnelProofs.v theories/Common/LE.vio theories/Gen/Consts.vio theories/Gw/Tunnel.vio
 theories/Gw/TunnelProofs.vos theories/Gw/TunnelProofs.vok theories/Gw/TunnelProofs.required_vos: theories/Gw/TunnelProofs.v theories/Common/LE.vos theories/Gen/Consts.vos theories/Gw/Tunnel.vos
@@ -133,60 +169,81 @@ theories/Gw/TunnelSender.vos theories/Gw/TunnelSender.vok theories/Gw/TunnelSend
 theories/Gw/TunnelSound.vo theories/Gw/TunnelSound.glob theories/Gw/TunnelSound.v.beautified theories/Gw/TunnelSound.required_vo: theories/Gw/TunnelSound.v theories/Common/LE.vo theories/Gen/Consts.vo theories/Gw/Tunnel.vo theories/Gw/TunnelProofs.vo
 theories/Gw/TunnelSound.vio: theories/Gw/TunnelSound.v theories/Common/LE.vio theories/Gen/Consts.vio theories/Gw/Tunnel.vio theories/Gw/TunnelProofs.vio
 theories/Gw/TunnelSound.vos theories/Gw/TunnelSound.vok theories/Gw/TunnelSound.required_vos: theories/Gw/TunnelSound.v theories/Common/LE.vos theories/Gen/Consts.vos theories/Gw/Tunnel.vos theories/Gw/TunnelProofs.vos
-theories/Gw/TunnelTheorems.vo theories/Gw/TunnelTheorems.glob theories/Gw/TunnelTheorems.v.beautified theories/Gw/TunnelTheorems.required_vo: theories/Gw/TunnelTheorems.v theories/Common/LE.vo theories/Gen/Consts.vo theories/Gw/Tunnel.vo theories/Gw/TunnelProofs.vo theories/Gw/TunnelSound.vo theories/Gw/TunnelSender.vo theories/Gw/TunnelComplete.vo
-theories/Gw/TunnelTheorems.vio: theories/Gw/TunnelTheorems.v theories/Common/LE.vio theories/Gen/Consts.vio theories/Gw/Tunnel.vio theories/Gw/TunnelProofs.vio theories/Gw/TunnelSound.vio theories/Gw/TunnelSender.vio theories/Gw/TunnelComplete.vio
-theories/Gw/TunnelTheorems.vos theories/Gw/TunnelTheorems.vok theories/Gw/TunnelTheorems.required_vos: theories/Gw/TunnelTheorems.v theories/Common/LE.vos theories/Gen/Consts.vos theories/Gw/Tunnel.vos theories/Gw/TunnelProofs.vos theories/Gw/TunnelSound.vos theories/Gw/TunnelSender.vos theories/Gw/TunnelComplete.vos
+theories/Gw/TunnelTheorems.vo theories/Gw/TunnelTheorems.glob theories/Gw/TunnelTheorems.v.beautified theories/Gw/TunnelTheorems.required_vo: theories/Gw/TunnelTheorems.v theories/Common/LE.vo theories/Gen/Consts.vo theories/Gw/Tunnel.vo theories/Gw/TunnelProofs.vo theories/Gw/TunnelSound.vo theories/Gw/TunnelSender.vo theories/Gw/TunnelComplete.vo theories/Gw/TunnelDrain.vo
+theories/Gw/TunnelTheorems.vio: theories/Gw/TunnelTheorems.v theories/Common/LE.vio theories/Gen/Consts.vio theories/Gw/Tunnel.vio theories/Gw/TunnelProofs.vio theories/Gw/TunnelSound.vio theories/Gw/TunnelSender.vio theories/Gw/TunnelComplete.vio theories/Gw/TunnelDrain.vio
+theories/Gw/TunnelTheorems.vos theories/Gw/TunnelTheorems.vok theories/Gw/TunnelTheorems.required_vos: theories/Gw/TunnelTheorems.v theories/Common/LE.vos theories/Gen/Consts.vos theories/Gw/Tunnel.vos theories/Gw/TunnelProofs.vos theories/Gw/TunnelSound.vos theories/Gw/TunnelSender.vos theories/Gw/TunnelComplete.vos theories/Gw/TunnelDrain.vos
 theories/Msg/MsgApi.vo theories/Msg/MsgApi.glob theories/Msg/MsgApi.v.beautified theories/Msg/MsgApi.required_vo: theories/Msg/MsgApi.v theories/Gen/Consts.vo theories/Msg/MsgDefs.vo theories/Msg/MsgModel.vo
 theories/Msg/MsgApi.vio: theories/Msg/MsgApi.v theories/Gen/Consts.vio theories/Msg/MsgDefs.vio theories/Msg/MsgModel.vio
 theories/Msg/MsgApi.vos theories/Msg/MsgApi.vok theories/Msg/MsgApi.required_vos: theories/Msg/MsgApi.v theories/Gen/Consts.vos theories/Msg/MsgDefs.vos theories/Msg/MsgModel.vos
+theories/Msg/MsgApiProofs.vo theories/Msg/MsgApiProofs.glob theories/Msg/MsgApiProofs.v.beautified theories/Msg/MsgApiProofs.required_vo: theories/Msg/MsgApiProofs.v theories/Gen/Consts.vo theories/Msg/MsgDefs.vo theories/Msg/MsgModel.vo theories/Msg/MsgApi.vo theories/Msg/MsgBytesProofs.vo
+theories/Msg/MsgApiProofs.vio: theories/Msg/MsgApiProofs.v theories/Gen/Consts.vio theories/Msg/MsgDefs.vio theories/Msg/MsgModel.vio theories/Msg/MsgApi.vio theories/Msg/MsgBytesProofs.vio
+theories/Msg/MsgApiProofs.vos theories/Msg/MsgApiProofs.vok theories/Msg/MsgApiProofs.required_vos: theories/Msg/MsgApiProofs.v theories/Gen/Consts.vos theories/Msg/MsgDefs.vos theories/Msg/MsgModel.vos theories/Msg/MsgApi.vos theories/Msg/MsgBytesProofs.vos
 theories/Msg/MsgBytesProofs.vo theories/Msg/MsgBytesProofs.glob theories/Msg/MsgBytesProofs.v.beautified theories/Msg/MsgBytesProofs.required_vo: theories/Msg/MsgBytesProofs.v theories/Gen/Consts.vo theories/Msg/MsgDefs.vo theories/Msg/MsgModel.vo
 theories/Msg/MsgBytesProofs.vio: theories/Msg/MsgBytesProofs.v theories/Gen/Consts.vio theories/Msg/MsgDefs.vio theories/Msg/MsgModel.vio
 theories/Msg/MsgBytesProofs.vos theories/Msg/MsgBytesProofs.vok theories/Msg/MsgBytesProofs.required_vos: theories/Msg/MsgBytesProofs.v theories/Gen/Consts.vos theories/Msg/MsgDefs.vos theories/Msg/MsgModel.vos
 theories/Msg/MsgDefs.vo theories/Msg/MsgDefs.glob theories/Msg/MsgDefs.v.beautified theories/Msg/MsgDefs.required_vo: theories/Msg/MsgDefs.v theories/Gen/Consts.vo
 theories/Msg/MsgDefs.vio: theories/Msg/MsgDefs.v theories/Gen/Consts.vio
 theories/Msg/MsgDefs.vos theories/Msg/MsgDefs.vok theories/Msg/MsgDefs.required_vos: theories/Msg/MsgDefs.v theories/Gen/Consts.vos
+theories/Msg/MsgEqProofs.vo theories/Msg/MsgEqProofs.glob theories/Msg/MsgEqProofs.v.beautified theories/Msg/MsgEqProofs.required_vo: theories/Msg/MsgEqProofs.v theories/Gen/Consts.vo theories/Msg/MsgDefs.vo theories/Msg/MsgModel.vo theories/Msg/MsgBytesProofs.vo theories/Msg/MsgSizeProofs.vo theories/Msg/MsgRoundTrip.vo theories/Msg/MsgApiProofs.vo
+theories/Msg/MsgEqProofs.vio: theories/Msg/MsgEqProofs.v theories/Gen/Consts.vio theories/Msg/MsgDefs.vio theories/Msg/MsgModel.vio theories/Msg/MsgBytesProofs.vio theories/Msg/MsgSizeProofs.vio theories/Msg/MsgRoundTrip.vio theories/Msg/MsgApiProofs.vio
+theories/Msg/MsgEqProofs.vos theories/Msg/MsgEqProofs.vok theories/Msg/MsgEqProofs.required_vos: theories/Msg/MsgEqProofs.v theories/Gen/Consts.vos theories/Msg/MsgDefs.vos theories/Msg/MsgModel.vos theories/Msg/MsgBytesProofs.vos theories/Msg/MsgSizeProofs.vos theories/Msg/MsgRoundTrip.vos theories/Msg/MsgApiProofs.vos
 theories/Msg/MsgModel.vo theories/Msg/MsgModel.glob theories/Msg/MsgModel.v.beautified theories/Msg/MsgModel.required_vo: theories/Msg/MsgModel.v theories/Gen/Consts.vo theories/Msg/MsgDefs.vo
 theories/Msg/MsgModel.vio: theories/Msg/MsgModel.v theories/Gen/Consts.vio theories/Msg/MsgDefs.vio
 theories/Msg/MsgModel.vos theories/Msg/MsgModel.vok theories/Msg/MsgModel.required_vos: theories/Msg/MsgModel.v theories/Gen/Consts.vos theories/Msg/MsgDefs.vos
 theories/Msg/MsgProofs.vo theories/Msg/MsgProofs.glob theories/Msg/MsgProofs.v.beautified theories/Msg/MsgProofs.required_vo: theories/Msg/MsgProofs.v theories/Gen/Consts.vo theories/Msg/MsgDefs.vo theories/Msg/MsgModel.vo theories/Msg/MsgApi.vo
 theories/Msg/MsgProofs.vio: theories/Msg/MsgProofs.v theories/Gen/Consts.vio theories/Msg/MsgDefs.vio theories/Msg/MsgModel.vio theories/Msg/MsgApi.vio
 theories/Msg/MsgProofs.vos theories/Msg/MsgProofs.vok theories/Msg/MsgProofs.required_vos: theories/Msg/MsgProofs.v theories/Gen/Consts.vos theories/Msg/MsgDefs.vos theories/Msg/MsgModel.vos theories/Msg/MsgApi.vos
+theories/Msg/MsgReprProofs.vo theories/Msg/MsgReprProofs.glob theories/Msg/MsgReprProofs.v.beautified theories/Msg/MsgReprProofs.required_vo: theories/Msg/MsgReprProofs.v theories/Gen/Consts.vo theories/Msg/MsgDefs.vo theories/Msg/MsgModel.vo theories/Msg/MsgBytesProofs.vo theories/Msg/MsgSizeProofs.vo theories/Msg/MsgRoundTrip.vo
+theories/Msg/MsgReprProofs.vio: theories/Msg/MsgReprProofs.v theories/Gen/Consts.vio theories/Msg/MsgDefs.vio theories/Msg/MsgModel.vio theories/Msg/MsgBytesProofs.vio theories/Msg/MsgSizeProofs.vio theories/Msg/MsgRoundTrip.vio
+theories/Msg/MsgReprProofs.vos theories/Msg/MsgReprProofs.vok theories/Msg/MsgReprProofs.required_vos: theories/Msg/MsgReprProofs.v theories/Gen/Consts.vos theories/Msg/MsgDefs.vos theories/Msg/MsgModel.vos theories/Msg/MsgBytesProofs.vos theories/Msg/MsgSizeProofs.vos theories/Msg/MsgRoundTrip.vos
+theories/Msg/MsgRoundTrip.vo theories/Msg/MsgRoundTrip.glob theories/Msg/MsgRoundTrip.v.beautified theories/Msg/MsgRoundTrip.required_vo: theories/Msg/MsgRoundTrip.v theories/Gen/Consts.vo theories/Msg/MsgDefs.vo theories/Msg/MsgModel.vo theories/Msg/MsgBytesProofs.vo theories/Msg/MsgSizeProofs.vo
+theories/Msg/MsgRoundTrip.vio: theories/Msg/MsgRoundTrip.v theories/Gen/Consts.vio theories/Msg/MsgDefs.vio theories/Msg/MsgModel.vio theories/Msg/MsgBytesProofs.vio theories/Msg/MsgSizeProofs.vio
+theories/Msg/MsgRoundTrip.vos theories/Msg/MsgRoundTrip.vok theories/Msg/MsgRoundTrip.required_vos: theories/Msg/MsgRoundTrip.v theories/Gen/Consts.vos theories/Msg/MsgDefs.vos theories/Msg/MsgModel.vos theories/Msg/MsgBytesProofs.vos theories/Msg/MsgSizeProofs.vos
 theories/Msg/MsgSizeProofs.vo theories/Msg/MsgSizeProofs.glob theories/Msg/MsgSizeProofs.v.beautified theories/Msg/MsgSizeProofs.required_vo: theories/Msg/MsgSizeProofs.v theories/Gen/Consts.vo theories/Msg/MsgDefs.vo theories/Msg/MsgModel.vo theories/Msg/MsgBytesProofs.vo
 theories/Msg/MsgSizeProofs.vio: theories/Msg/MsgSizeProofs.v theories/Gen/Consts.vio theories/Msg/MsgDefs.vio theories/Msg/MsgModel.vio theories/Msg/MsgBytesProofs.vio
 theories/Msg/MsgSizeProofs.vos theories/Msg/MsgSizeProofs.vok theories/Msg/MsgSizeProofs.required_vos: theories/Msg/MsgSizeProofs.v theories/Gen/Consts.vos theories/Msg/MsgDefs.vos theories/Msg/MsgModel.vos theories/Msg/MsgBytesProofs.vos
 theories/Pat/Ere.vo theories/Pat/Ere.glob theories/Pat/Ere.v.beautified theories/Pat/Ere.required_vo: theories/Pat/Ere.v 
 theories/Pat/Ere.vio: theories/Pat/Ere.v 
 theories/Pat/Ere.vos theories/Pat/Ere.vok theories/Pat/Ere.required_vos: theories/Pat/Ere.v 
+theories/Pat/EreProofs.vo theories/Pat/EreProofs.glob theories/Pat/EreProofs.v.beautified theories/Pat/EreProofs.required_vo: theories/Pat/EreProofs.v theories/Pat/Ere.vo
+theories/Pat/EreProofs.vio: theories/Pat/EreProofs.v theories/Pat/Ere.vio
+theories/Pat/EreProofs.vos theories/Pat/EreProofs.vok theories/Pat/EreProofs.required_vos: theories/Pat/EreProofs.v theories/Pat/Ere.vos
 theories/Pat/PatProofs.vo theories/Pat/PatProofs.glob theories/Pat/PatProofs.v.beautified theories/Pat/PatProofs.required_vo: theories/Pat/PatProofs.v theories/Gen/Consts.vo theories/Pat/Ere.vo theories/Pat/Translate.vo
 theories/Pat/PatProofs.vio: theories/Pat/PatProofs.v theories/Gen/Consts.vio theories/Pat/Ere.vio theories/Pat/Translate.vio
 theories/Pat/PatProofs.vos theories/Pat/PatProofs.vok theories/Pat/PatProofs.required_vos: theories/Pat/PatProofs.v theories/Gen/Consts.vos theories/Pat/Ere.vos theories/Pat/Translate.vos
 theories/Pat/Translate.vo theories/Pat/Translate.glob theories/Pat/Translate.v.beautified theories/Pat/Translate.required_vo: theories/Pat/Translate.v theories/Gen/Consts.vo theories/Pat/Ere.vo
 theories/Pat/Translate.vio: theories/Pat/Translate.v theories/Gen/Consts.vio theories/Pat/Ere.vio
 theories/Pat/Translate.vos theories/Pat/Translate.vok theories/Pat/Translate.required_vos: theories/Pat/Translate.v theories/Gen/Consts.vos theories/Pat/Ere.vos
-theories/Properties_C01.vo theories/Properties_C01.glob theories/Properties_C01.v.beautified theories/Properties_C01.required_vo: theories/Properties_C01.v theories/Msg/MsgDefs.vo theories/Msg/MsgModel.vo theories/Msg/MsgApi.vo theories/Msg/MsgProofs.vo
-theories/Properties_C01.vio: theories/Properties_C01.v theories/Msg/MsgDefs.vio theories/Msg/MsgModel.vio theories/Msg/MsgApi.vio theories/Msg/MsgProofs.vio
-theories/Properties_C01.vos theories/Properties_C01.vok theories/Properties_C01.required_vos: theories/Properties_C01.v theories/Msg/MsgDefs.vos theories/Msg/MsgModel.vos theories/Msg/MsgApi.vos theories/Msg/MsgProofs.vos
+theories/Properties_C01.vo theories/Properties_C01.glob theories/Properties_C01.v.beautified theories/Properties_C01.required_vo: theories/Properties_C01.v theories/Msg/MsgDefs.vo theories/Msg/MsgModel.vo theories/Msg/MsgApi.vo theories/Msg/MsgBytesProofs.vo theories/Msg/MsgSizeProofs.vo theories/Msg/MsgRoundTrip.vo
+theories/Properties_C01.vio: theories/Properties_C01.v theories/Msg/MsgDefs.vio theories/Msg/MsgModel.vio theories/Msg/MsgApi.vio theories/Msg/MsgBytesProofs.vio theories/Msg/MsgSizeProofs.vio theories/Msg/MsgRoundTrip.vio
+theories/Properties_C01.vos theories/Properties_C01.vok theories/Properties_C01.required_vos: theories/Properties_C01.v theories/Msg/MsgDefs.vos theories/Msg/MsgModel.vos theories/Msg/MsgApi.vos theories/Msg/MsgBytesProofs.vos theories/Msg/MsgSizeProofs.vos theories/Msg/MsgRoundTrip.vos
 theories/Properties_C03.vo theories/Properties_C03.glob theories/Properties_C03.v.beautified theories/Properties_C03.required_vo: theories/Properties_C03.v theories/Gw/GwBase.vo theories/Gw/FrameModel.vo theories/Gw/FrameProofs.vo
 theories/Properties_C03.vio: theories/Properties_C03.v theories/Gw/GwBase.vio theories/Gw/FrameModel.vio theories/Gw/FrameProofs.vio
 theories/Properties_C03.vos theories/Properties_C03.vok theories/Properties_C03.required_vos: theories/Properties_C03.v theories/Gw/GwBase.vos theories/Gw/FrameModel.vos theories/Gw/FrameProofs.vos
 theories/Properties_C04.vo theories/Properties_C04.glob theories/Properties_C04.v.beautified theories/Properties_C04.required_vo: theories/Properties_C04.v theories/Refl/Base.vo theories/Refl/Tree.vo theories/Refl/TreeProofs.vo
 theories/Properties_C04.vio: theories/Properties_C04.v theories/Refl/Base.vio theories/Refl/Tree.vio theories/Refl/TreeProofs.vio
 theories/Properties_C04.vos theories/Properties_C04.vok theories/Properties_C04.required_vos: theories/Properties_C04.v theories/Refl/Base.vos theories/Refl/Tree.vos theories/Refl/TreeProofs.vos
-theories/Properties_C09.vo theories/Properties_C09.glob theories/Properties_C09.v.beautified theories/Properties_C09.required_vo: theories/Properties_C09.v theories/Cont/HtModel.vo theories/Cont/HtStep.vo theories/Cont/HtIdeal.vo theories/Cont/HtProofs.vo
-theories/Properties_C09.vio: theories/Properties_C09.v theories/Cont/HtModel.vio theories/Cont/HtStep.vio theories/Cont/HtIdeal.vio theories/Cont/HtProofs.vio
-theories/Properties_C09.vos theories/Properties_C09.vok theories/Properties_C09.required_vos: theories/Properties_C09.v theories/Cont/HtModel.vos theories/Cont/HtStep.vos theories/Cont/HtIdeal.vos theories/Cont/HtProofs.vos
+theories/Properties_C07.vo theories/Properties_C07.glob theories/Properties_C07.v.beautified theories/Properties_C07.required_vo: theories/Properties_C07.v theories/Refl/Base.vo theories/Refl/Bounded.vo theories/Refl/BoundedProofs.vo
+theories/Properties_C07.vio: theories/Properties_C07.v theories/Refl/Base.vio theories/Refl/Bounded.vio theories/Refl/BoundedProofs.vio
+theories/Properties_C07.vos theories/Properties_C07.vok theories/Properties_C07.required_vos: theories/Properties_C07.v theories/Refl/Base.vos theories/Refl/Bounded.vos theories/Refl/BoundedProofs.vos
+theories/Properties_C09.vo theories/Properties_C09.glob theories/Properties_C09.v.beautified theories/Properties_C09.required_vo: theories/Properties_C09.v theories/Cont/HtModel.vo theories/Cont/HtStep.vo theories/Cont/HtIdeal.vo theories/Cont/HtLemmas.vo
+theories/Properties_C09.vio: theories/Properties_C09.v theories/Cont/HtModel.vio theories/Cont/HtStep.vio theories/Cont/HtIdeal.vio theories/Cont/HtLemmas.vio
+theories/Properties_C09.vos theories/Properties_C09.vok theories/Properties_C09.required_vos: theories/Properties_C09.v theories/Cont/HtModel.vos theories/Cont/HtStep.vos theories/Cont/HtIdeal.vos theories/Cont/HtLemmas.vos
 theories/Properties_C10.vo theories/Properties_C10.glob theories/Properties_C10.v.beautified theories/Properties_C10.required_vo: theories/Properties_C10.v theories/Conc/Pool.vo theories/Conc/RefCnt.vo theories/Conc/RefProofs.vo
 theories/Properties_C10.vio: theories/Properties_C10.v theories/Conc/Pool.vio theories/Conc/RefCnt.vio theories/Conc/RefProofs.vio
 theories/Properties_C10.vos theories/Properties_C10.vok theories/Properties_C10.required_vos: theories/Properties_C10.v theories/Conc/Pool.vos theories/Conc/RefCnt.vos theories/Conc/RefProofs.vos
 theories/Properties_C11.vo theories/Properties_C11.glob theories/Properties_C11.v.beautified theories/Properties_C11.required_vo: theories/Properties_C11.v theories/Gen/Consts.vo theories/Conc/ThreadQ.vo theories/Conc/ThreadQProofs.vo
 theories/Properties_C11.vio: theories/Properties_C11.v theories/Gen/Consts.vio theories/Conc/ThreadQ.vio theories/Conc/ThreadQProofs.vio
 theories/Properties_C11.vos theories/Properties_C11.vok theories/Properties_C11.required_vos: theories/Properties_C11.v theories/Gen/Consts.vos theories/Conc/ThreadQ.vos theories/Conc/ThreadQProofs.vos
-theories/Properties_C12.vo theories/Properties_C12.glob theories/Properties_C12.v.beautified theories/Properties_C12.required_vo: theories/Properties_C12.v theories/Common/LE.vo theories/Gw/Tunnel.vo theories/Gw/TunnelProofs.vo
-theories/Properties_C12.vio: theories/Properties_C12.v theories/Common/LE.vio theories/Gw/Tunnel.vio theories/Gw/TunnelProofs.vio
-theories/Properties_C12.vos theories/Properties_C12.vok theories/Properties_C12.required_vos: theories/Properties_C12.v theories/Common/LE.vos theories/Gw/Tunnel.vos theories/Gw/TunnelProofs.vos
+theories/Properties_C12.vo theories/Properties_C12.glob theories/Properties_C12.v.beautified theories/Properties_C12.required_vo: theories/Properties_C12.v theories/Common/LE.vo theories/Gw/Tunnel.vo theories/Gw/TunnelProofs.vo theories/Gw/TunnelSound.vo theories/Gw/TunnelSender.vo theories/Gw/TunnelComplete.vo theories/Gw/TunnelTheorems.vo theories/Gw/MiniTunnel.vo theories/Gw/MiniTunnelProofs.vo
+theories/Properties_C12.vio: theories/Properties_C12.v theories/Common/LE.vio theories/Gw/Tunnel.vio theories/Gw/TunnelProofs.vio theories/Gw/TunnelSound.vio theories/Gw/TunnelSender.vio theories/Gw/TunnelComplete.vio theories/Gw/TunnelTheorems.vio theories/Gw/MiniTunnel.vio theories/Gw/MiniTunnelProofs.vio
+theories/Properties_C12.vos theories/Properties_C12.vok theories/Properties_C12.required_vos: theories/Properties_C12.v theories/Common/LE.vos theories/Gw/Tunnel.vos theories/Gw/TunnelProofs.vos theories/Gw/TunnelSound.vos theories/Gw/TunnelSender.vos theories/Gw/TunnelComplete.vos theories/Gw/TunnelTheorems.vos theories/Gw/MiniTunnel.vos theories/Gw/MiniTunnelProofs.vos
 theories/Properties_C13.vo theories/Properties_C13.glob theories/Properties_C13.v.beautified theories/Properties_C13.required_vo: theories/Properties_C13.v theories/Refl/Index.vo theories/Refl/IndexProofs.vo
 theories/Properties_C13.vio: theories/Properties_C13.v theories/Refl/Index.vio theories/Refl/IndexProofs.vio
 theories/Properties_C13.vos theories/Properties_C13.vok theories/Properties_C13.required_vos: theories/Properties_C13.v theories/Refl/Index.vos theories/Refl/IndexProofs.vos
+theories/Properties_C14.vo theories/Properties_C14.glob theories/Properties_C14.v.beautified theories/Properties_C14.required_vo: theories/Properties_C14.v theories/Msg/MsgDefs.vo theories/Msg/MsgModel.vo theories/Flt/FltModel.vo theories/Flt/FltProofs.vo
+theories/Properties_C14.vio: theories/Properties_C14.v theories/Msg/MsgDefs.vio theories/Msg/MsgModel.vio theories/Flt/FltModel.vio theories/Flt/FltProofs.vio
+theories/Properties_C14.vos theories/Properties_C14.vok theories/Properties_C14.required_vos: theories/Properties_C14.v theories/Msg/MsgDefs.vos theories/Msg/MsgModel.vos theories/Flt/FltModel.vos theories/Flt/FltProofs.vos
 theories/Properties_C15.vo theories/Properties_C15.glob theories/Properties_C15.v.beautified theories/Properties_C15.required_vo: theories/Properties_C15.v theories/Gen/Consts.vo theories/Pat/Ere.vo theories/Pat/Translate.vo theories/Pat/PatProofs.vo
 theories/Properties_C15.vio: theories/Properties_C15.v theories/Gen/Consts.vio theories/Pat/Ere.vio theories/Pat/Translate.vio theories/Pat/PatProofs.vio
 theories/Properties_C15.vos theories/Properties_C15.vok theories/Properties_C15.required_vos: theories/Properties_C15.v theories/Gen/Consts.vos theories/Pat/Ere.vos theories/Pat/Translate.vos theories/Pat/PatProofs.vos
@@ -205,15 +262,30 @@ theories/Properties_C19.vos theories/Properties_C19.vok theories/Properties_C19.
 theories/Properties_C20.vo theories/Properties_C20.glob theories/Properties_C20.v.beautified theories/Properties_C20.required_vo: theories/Properties_C20.v theories/Pulse/PulseModel.vo theories/Pulse/PulseProofs.vo
 theories/Properties_C20.vio: theories/Properties_C20.v theories/Pulse/PulseModel.vio theories/Pulse/PulseProofs.vio
 theories/Properties_C20.vos theories/Properties_C20.vok theories/Properties_C20.required_vos: theories/Properties_C20.v theories/Pulse/PulseModel.vos theories/Pulse/PulseProofs.vos
+theories/Pulse/PulseInv.vo theories/Pulse/PulseInv.glob theories/Pulse/PulseInv.v.beautified theories/Pulse/PulseInv.required_vo: theories/Pulse/PulseInv.v theories/Pulse/PulseModel.vo
+theories/Pulse/PulseInv.vio: theories/Pulse/PulseInv.v theories/Pulse/PulseModel.vio
+theories/Pulse/PulseInv.vos theories/Pulse/PulseInv.vok theories/Pulse/PulseInv.required_vos: theories/Pulse/PulseInv.v theories/Pulse/PulseModel.vos
 theories/Pulse/PulseModel.vo theories/Pulse/PulseModel.glob theories/Pulse/PulseModel.v.beautified theories/Pulse/PulseModel.required_vo: theories/Pulse/PulseModel.v theories/Gen/Consts.vo
 theories/Pulse/PulseModel.vio: theories/Pulse/PulseModel.v theories/Gen/Consts.vio
 theories/Pulse/PulseModel.vos theories/Pulse/PulseModel.vok theories/Pulse/PulseModel.required_vos: theories/Pulse/PulseModel.v theories/Gen/Consts.vos
 theories/Pulse/PulseProofs.vo theories/Pulse/PulseProofs.glob theories/Pulse/PulseProofs.v.beautified theories/Pulse/PulseProofs.required_vo: theories/Pulse/PulseProofs.v theories/Pulse/PulseModel.vo
 theories/Pulse/PulseProofs.vio: theories/Pulse/PulseProofs.v theories/Pulse/PulseModel.vio
 theories/Pulse/PulseProofs.vos theories/Pulse/PulseProofs.vok theories/Pulse/PulseProofs.required_vos: theories/Pulse/PulseProofs.v theories/Pulse/PulseModel.vos
+theories/Pulse/PulseResched.vo theories/Pulse/PulseResched.glob theories/Pulse/PulseResched.v.beautified theories/Pulse/PulseResched.required_vo: theories/Pulse/PulseResched.v theories/Pulse/PulseModel.vo theories/Pulse/PulseInv.vo
+theories/Pulse/PulseResched.vio: theories/Pulse/PulseResched.v theories/Pulse/PulseModel.vio theories/Pulse/PulseInv.vio
+theories/Pulse/PulseResched.vos theories/Pulse/PulseResched.vok theories/Pulse/PulseResched.required_vos: theories/Pulse/PulseResched.v theories/Pulse/PulseModel.vos theories/Pulse/PulseInv.vos
 theories/Refl/Base.vo theories/Refl/Base.glob theories/Refl/Base.v.beautified theories/Refl/Base.required_vo: theories/Refl/Base.v 
 theories/Refl/Base.vio: theories/Refl/Base.v 
 theories/Refl/Base.vos theories/Refl/Base.vok theories/Refl/Base.required_vos: theories/Refl/Base.v 
+theories/Refl/Bounded.vo theories/Refl/Bounded.glob theories/Refl/Bounded.v.beautified theories/Refl/Bounded.required_vo: theories/Refl/Bounded.v theories/Gen/Consts.vo theories/Refl/Base.vo theories/Refl/Tree.vo theories/Refl/Matcher.vo theories/Refl/Traverse.vo theories/Refl/Session.vo theories/Refl/Server.vo
+theories/Refl/Bounded.vio: theories/Refl/Bounded.v theories/Gen/Consts.vio theories/Refl/Base.vio theories/Refl/Tree.vio theories/Refl/Matcher.vio theories/Refl/Traverse.vio theories/Refl/Session.vio theories/Refl/Server.vio
+theories/Refl/Bounded.vos theories/Refl/Bounded.vok theories/Refl/Bounded.required_vos: theories/Refl/Bounded.v theories/Gen/Consts.vos theories/Refl/Base.vos theories/Refl/Tree.vos theories/Refl/Matcher.vos theories/Refl/Traverse.vos theories/Refl/Session.vos theories/Refl/Server.vos
+theories/Refl/BoundedProofs.vo theories/Refl/BoundedProofs.glob theories/Refl/BoundedProofs.v.beautified theories/Refl/BoundedProofs.required_vo: theories/Refl/BoundedProofs.v theories/Gen/Consts.vo theories/Refl/Base.vo theories/Refl/Tree.vo theories/Refl/Matcher.vo theories/Refl/Traverse.vo theories/Refl/Session.vo theories/Refl/Server.vo theories/Refl/Bounded.vo
+theories/Refl/BoundedProofs.vio: theories/Refl/BoundedProofs.v theories/Gen/Consts.vio theories/Refl/Base.vio theories/Refl/Tree.vio theories/Refl/Matcher.vio theories/Refl/Traverse.vio theories/Refl/Session.vio theories/Refl/Server.vio theories/Refl/Bounded.vio
+theories/Refl/BoundedProofs.vos theories/Refl/BoundedProofs.vok theories/Refl/BoundedProofs.required_vos: theories/Refl/BoundedProofs.v theories/Gen/Consts.vos theories/Refl/Base.vos theories/Refl/Tree.vos theories/Refl/Matcher.vos theories/Refl/Traverse.vos theories/Refl/Session.vos theories/Refl/Server.vos theories/Refl/Bounded.vos
+theories/Refl/ClauseKeys.vo theories/Refl/ClauseKeys.glob theories/Refl/ClauseKeys.v.beautified theories/Refl/ClauseKeys.required_vo: theories/Refl/ClauseKeys.v theories/Gen/Consts.vo theories/Pat/Ere.vo theories/Pat/Translate.vo
+theories/Refl/ClauseKeys.vio: theories/Refl/ClauseKeys.v theories/Gen/Consts.vio theories/Pat/Ere.vio theories/Pat/Translate.vio
+theories/Refl/ClauseKeys.vos theories/Refl/ClauseKeys.vok theories/Refl/ClauseKeys.required_vos: theories/Refl/ClauseKeys.v theories/Gen/Consts.vos theories/Pat/Ere.vos theories/Pat/Translate.vos
 theories/Refl/Index.vo theories/Refl/Index.glob theories/Refl/Index.v.beautified theories/Refl/Index.required_vo: theories/Refl/Index.v 
 theories/Refl/Index.vio: theories/Refl/Index.v 
 theories/Refl/Index.vos theories/Refl/Index.vok theories/Refl/Index.required_vos: theories/Refl/Index.v 
@@ -223,12 +295,18 @@ theories/Refl/IndexModel.vos theories/Refl/IndexModel.vok theories/Refl/IndexMod
 theories/Refl/IndexProofs.vo theories/Refl/IndexProofs.glob theories/Refl/IndexProofs.v.beautified theories/Refl/IndexProofs.required_vo: theories/Refl/IndexProofs.v theories/Refl/Index.vo
 theories/Refl/IndexProofs.vio: theories/Refl/IndexProofs.v theories/Refl/Index.vio
 theories/Refl/IndexProofs.vos theories/Refl/IndexProofs.vok theories/Refl/IndexProofs.required_vos: theories/Refl/IndexProofs.v theories/Refl/Index.vos
+theories/Refl/IsoModel.vo theories/Refl/IsoModel.glob theories/Refl/IsoModel.v.beautified theories/Refl/IsoModel.required_vo: theories/Refl/IsoModel.v theories/Gen/Consts.vo theories/Refl/Base.vo theories/Refl/Tree.vo theories/Refl/Matcher.vo theories/Refl/Traverse.vo theories/Refl/Session.vo theories/Refl/Server.vo
+theories/Refl/IsoModel.vio: theories/Refl/IsoModel.v theories/Gen/Consts.vio theories/Refl/Base.vio theories/Refl/Tree.vio theories/Refl/Matcher.vio theories/Refl/Traverse.vio theories/Refl/Session.vio theories/Refl/Server.vio
+theories/Refl/IsoModel.vos theories/Refl/IsoModel.vok theories/Refl/IsoModel.required_vos: theories/Refl/IsoModel.v theories/Gen/Consts.vos theories/Refl/Base.vos theories/Refl/Tree.vos theories/Refl/Matcher.vos theories/Refl/Traverse.vos theories/Refl/Session.vos theories/Refl/Server.vos
 theories/Refl/Matcher.vo theories/Refl/Matcher.glob theories/Refl/Matcher.v.beautified theories/Refl/Matcher.required_vo: theories/Refl/Matcher.v theories/Refl/Base.vo theories/Refl/Tree.vo
 theories/Refl/Matcher.vio: theories/Refl/Matcher.v theories/Refl/Base.vio theories/Refl/Tree.vio
 theories/Refl/Matcher.vos theories/Refl/Matcher.vok theories/Refl/Matcher.required_vos: theories/Refl/Matcher.v theories/Refl/Base.vos theories/Refl/Tree.vos
 theories/Refl/Mirror.vo theories/Refl/Mirror.glob theories/Refl/Mirror.v.beautified theories/Refl/Mirror.required_vo: theories/Refl/Mirror.v theories/Refl/Base.vo theories/Refl/Tree.vo theories/Refl/Matcher.vo theories/Refl/Traverse.vo theories/Refl/Session.vo theories/Refl/Server.vo
 theories/Refl/Mirror.vio: theories/Refl/Mirror.v theories/Refl/Base.vio theories/Refl/Tree.vio theories/Refl/Matcher.vio theories/Refl/Traverse.vio theories/Refl/Session.vio theories/Refl/Server.vio
 theories/Refl/Mirror.vos theories/Refl/Mirror.vok theories/Refl/Mirror.required_vos: theories/Refl/Mirror.v theories/Refl/Base.vos theories/Refl/Tree.vos theories/Refl/Matcher.vos theories/Refl/Traverse.vos theories/Refl/Session.vos theories/Refl/Server.vos
+theories/Refl/Route.vo theories/Refl/Route.glob theories/Refl/Route.v.beautified theories/Refl/Route.required_vo: theories/Refl/Route.v theories/Gen/Consts.vo theories/Refl/Base.vo theories/Refl/Tree.vo theories/Refl/Matcher.vo theories/Refl/Traverse.vo theories/Refl/Session.vo theories/Refl/Server.vo
+theories/Refl/Route.vio: theories/Refl/Route.v theories/Gen/Consts.vio theories/Refl/Base.vio theories/Refl/Tree.vio theories/Refl/Matcher.vio theories/Refl/Traverse.vio theories/Refl/Session.vio theories/Refl/Server.vio
+theories/Refl/Route.vos theories/Refl/Route.vok theories/Refl/Route.required_vos: theories/Refl/Route.v theories/Gen/Consts.vos theories/Refl/Base.vos theories/Refl/Tree.vos theories/Refl/Matcher.vos theories/Refl/Traverse.vos theories/Refl/Session.vos theories/Refl/Server.vos
 theories/Refl/Server.vo theories/Refl/Server.glob theories/Refl/Server.v.beautified theories/Refl/Server.required_vo: theories/Refl/Server.v theories/Gen/Consts.vo theories/Refl/Base.vo theories/Refl/Tree.vo theories/Refl/Matcher.vo theories/Refl/Traverse.vo theories/Refl/Session.vo
 theories/Refl/Server.vio: theories/Refl/Server.v theories/Gen/Consts.vio theories/Refl/Base.vio theories/Refl/Tree.vio theories/Refl/Matcher.vio theories/Refl/Traverse.vio theories/Refl/Session.vio
 theories/Refl/Server.vos theories/Refl/Server.vok theories/Refl/Server.required_vos: theories/Refl/Server.v theories/Gen/Consts.vos theories/Refl/Base.vos theories/Refl/Tree.vos theories/Refl/Matcher.vos theories/Refl/Traverse.vos theories/Refl/Session.vos
